@@ -410,6 +410,24 @@ class _:
     g.rng.shuffle(targets)
     rels = no_prefix_pairs(targets[:k])
     ups = []
+    if g.rng.random() < 0.2:
+      # A batch of several deletions in ONE list (each legal on its own, only
+      # their sum may cross a size bound), optionally with other updates.
+      lists = []
+      for rel in [[]] + targets:
+        try:
+          cand = node_at(n, rel)
+        except Exception:  # pylint: disable=broad-except
+          continue
+        if isinstance(cand, pg.List) and len(cand) >= 2:
+          lists.append(rel)
+      if lists:
+        lrel = g.rng.choice(lists)
+        size = len(node_at(n, lrel))
+        idxs = sorted(g.rng.sample(range(size), g.rng.randint(2, min(3, size))))
+        ups = [[lrel + [i], ['missing']] for i in idxs]
+        rels = [r for r in rels
+                if not (r[:len(lrel)] == lrel or lrel[:len(r)] == r)][:1]
     for rel in rels:
       parent = node_at(n, rel[:-1])
       r = g.rng.random()
